@@ -42,13 +42,21 @@ MANIFEST = dict(
          "C16_pyint_reads_padded / C16_pyint_reads_accepted / C16_pyint_rejects_empty - the int() model reads zero/blank padded decimals back; C16_fwf_roundtrip - for a layout with till = offset + size, pairwise "
          "disjoint columns and a non-empty filler, parse_fwf_row returns one entry per column and every column written from the record or its mapping parses back to str(value) padded/truncated to the column size "
          "(C16_fwf_cell_size, C16_fwf_absent_is_filler: unwritten columns read back as filler); "
-         "C16_fwf_every_row_once - if load_fwf returns, its accepted and rejected lists are exactly the non-blank lines, each classified once by the "
+         "C16_fwf_parse_raises_only_empty_layout - for a row of text (positions naturals or None, validations total functions, error_message a string or absent) parse_fwf_row raises "
+         "exactly for an empty layout (SyntaxError) and never TypeError, whatever validations fail (fix C16-d: a failed validation of a column without error_message contributes "
+         "\"Validation rule #<i> for '<column>' failed\" instead of None); C16_fwf_row_classified - with validation on, a row is accepted (one entry per column) iff every validation of every column holds, "
+         "each seeing the columns before it, else rejected with the row itself and a message: no third outcome; C16_fwf_reject_message - one message per failed validation; "
+         "C16_fwf_load_raises_only_without_header - load_fwf (over the lines read) raises only SyntaxError and only when no header layout is given; "
+         "C16_fwf_every_row_once - whenever a header layout is given load_fwf RETURNS (no longer 'if it returns') and its accepted and rejected lists are exactly the non-blank lines, each classified once by the "
          "header/body/footer layout of its position, in file order, lengths add up, rejected entries carry their own line, validate=False rejects nothing. "
          "Counter-example theorems: C16_tlv_loop_cex / C16_tlv_overlap_cex (pre-fix step loops on 'AA-05', overlaps on '0-2'; C16_tlv_fixed_witnesses: now ValueError), "
-         "C16_fwf_rejected_midfile (fix C16-b). "
+         "C16_fwf_rejected_midfile (fix C16-b), C16_fwf_nomsg_witness (fix C16-d: the audit's layout without error_message - row 'no' rejected with the default message, file ok/no/ok loads with line 2 rejected once). "
+         "Evaluator fwf_every_row_once: every generated layout is well-formed, so ANY raise of parse_fwf_row / load_fwf is a failure; acceptance is decided by an independent reference (ref_classify), "
+         "a rejected row must carry (row, message text) with one message per failed validation. "
          "Differential only (streams tlv.int, tlv.parse, tlv.gen, fwf.parse, fwf.gen, fwf.load): the models themselves (int() on Latin-1 + listed blanks, slices, ljust/rjust/zfill, str() of str/int/bool/None), "
          "load_lines/file layer, eval'd validation and mapping expressions (theorems take them as arbitrary total functions; a fixed menu of 8 + 4 expressions is compared).",
-    note="model follows the tree with fixes C16-a (negative TLV length), C16-b (failed_rows.append tuple) and C16-c (generate_tlv refuses a len_padding that int() does not read through) applied; "
+    note="model follows the tree with fixes C16-a (negative TLV length), C16-b (failed_rows.append tuple), C16-c (generate_tlv refuses a len_padding that int() does not read through) and C16-d "
+         "(default message for a failed validation without error_message) applied; generate_fwf (file output, not named by the property) is not modelled - fix C16-e only makes it close its file; "
          "blank lines of a fixed-width file are skipped by load_fwf (neither accepted nor rejected) - the reading of 'every row' is 'every non-blank line'",
     design_ref="5/C16",
 )
@@ -397,7 +405,7 @@ def gen_pfmt(rng, allow_empty=True):
         if till is not None and till < 0:
             till = 0
         vals = [rng.randrange(len(VALIDATIONS)) for _ in range(rng.choice([0, 0, 1, 1, 2, 3]))]
-        msg = None if rng.random() < 0.08 else rng.choice(["E1", "bad " + name, ""])
+        msg = None if rng.random() < 0.3 else rng.choice(["E1", "bad " + name, ""])
         cols.append({"name": name, "offset": off, "width": width, "till": till, "msg": msg, "vals": vals})
     return cols
 
@@ -594,26 +602,69 @@ def check_fwf_roundtrip(c):
     return None
 
 
+_VALIDATION_FNS = None
+
+
+def ref_classify(line, fmt):
+    """reference classification of one row, written without parse_fwf_row: the value of each column is the slice the
+    layout names, a column's validations (the menu expressions, compiled here) see the columns before it; returns
+    ('acc', row dict) or ('rej', number of failed validations of the first failing column, its error_message)"""
+    global _VALIDATION_FNS
+    if _VALIDATION_FNS is None:
+        _VALIDATION_FNS = [eval("lambda column_value, row, parsed_row: " + v) for v in VALIDATIONS]
+    parsed = {}
+    for col in fmt:
+        value = None
+        off, till = col["offset"], col["till"]
+        if off is not None:
+            if till is None and col["width"] is not None:
+                till = off + col["width"]
+            if till is not None:
+                value = line[off:till]
+        failed = [i for i in col["vals"] if not _VALIDATION_FNS[i](value, line, dict(parsed))]
+        if failed:
+            return ("rej", len(failed), col["msg"])
+        parsed[col["name"]] = value
+    return ("acc", parsed)
+
+
 def check_every_row_once(c):
-    """validate=True, return_original_row='__orig': accepted + rejected = the non-blank lines, once each, in order"""
+    """validate=True, return_original_row='__orig': accepted + rejected = the non-blank lines, once each, in order.
+    The layouts generated here are well-formed (integer or absent positions, validations from the menu - none of which
+    raises -, error_message a string or absent): no row may raise, whether or not a failing column names an
+    error_message (fix C16-d); which rows are accepted is decided by the reference ref_classify, not by the code"""
     parse = impl()[2]
     r = call_load(c)
     hdr, body, ftr = pcols_py(c["hdr"]), pcols_py(c["body"]), pcols_py(c["ftr"])
     body = body or hdr
     ftr = ftr or body
+    jbody = c["body"] or c["hdr"]
+    jftr = c["ftr"] or jbody
     want_acc, want_rej = [], []
     n = len(c["lines"])
     for k, line in enumerate(c["lines"]):
         if not line:
             continue
         fmt = ftr if k == n - 1 else (hdr if k == 0 else body)
+        jfmt = jftr if k == n - 1 else (c["hdr"] if k == 0 else jbody)
         one = core.call(parse, line, fmt, True)
         if one[0] != "ok":
-            return None if r[0] == "err" and r[1] == one[1] else {"what": "a row raises but the loader did not raise the same", "row": line, "row_raises": one[1], "loader": repr(r)[:200]}
+            return {"what": "parse_fwf_row raises for a row of text and a well-formed layout", "row": line, "row_raises": one[1], "loader": repr(r)[:200]}
+        ref = ref_classify(line, jfmt)
         if isinstance(one[1], dict):
+            if ref[0] != "acc" or one[1] != ref[1]:
+                return {"what": "parse_fwf_row accepts a row the layout rejects, or with other values", "row": line, "got": repr(one[1]), "reference": repr(ref)}
             one[1]["__orig"] = line
             want_acc.append(one[1])
         else:
+            if ref[0] != "rej":
+                return {"what": "parse_fwf_row rejects a row all of whose validations hold", "row": line, "got": repr(one[1])}
+            if not (isinstance(one[1], tuple) and len(one[1]) == 2 and one[1][0] == line and isinstance(one[1][1], str)):
+                return {"what": "a rejected row is not reported as (row, message text)", "row": line, "got": repr(one[1])}
+            if ref[2] is not None and one[1][1] != ";".join([ref[2]] * ref[1]):
+                return {"what": "a rejected row does not carry the column's error_message once per failed validation", "row": line, "got": repr(one[1])}
+            if ref[2] is None and one[1][1].count(";") != ref[1] - 1:
+                return {"what": "a rejected row without error_message does not carry one message per failed validation", "row": line, "got": repr(one[1])}
             want_rej.append((k + 1, line, one[1][1]))
     if r[0] != "ok":
         return {"what": "load_fwf raised", "raised": r[1], "rejected_expected": len(want_rej)}
@@ -844,7 +895,9 @@ def _run(ctx):
         "validations / mapping expressions of a fixed-width layout are eval'd Python; theorems take them as arbitrary total functions, the correspondence compares a fixed menu of 8 + 4 expressions",
         "load_fwf is modelled over the list of lines load_lines yields; the implementation side reads a real file (text mode, EOL '\\n')",
         "fixed-width offsets, widths and sizes are non-negative integers or None; record values are str, int, bool or None",
-        "model and theorems follow the tree with fixes C16-a, C16-b and C16-c applied",
+        "model and theorems follow the tree with fixes C16-a, C16-b, C16-c and C16-d applied",
+        "a well-formed fixed-width layout: positions integers or absent, validations Python expressions that do not raise (the menu), error_message a string or absent; outside it "
+        "(an expression that raises, a non-integer position, an error_message that is neither None nor str) parse_fwf_row may still raise what eval / slicing / str.join raise",
     ]
     ctx.extra["trusted_base"] = [
         "hand-written models lean/N0Verif/Model/Tlv.lean, Model/Fwf.lean (differentially validated by the streams above)",
